@@ -137,6 +137,8 @@ def build_service(rec, behaviours=None):
                 return (n,)
             if n == -4:
                 return None
+            if n == -5:
+                return 5
             if n is not None and n < 0:
                 from spyne.model._base import Ignored
                 return Ignored('direct callers only', n=n)
